@@ -547,18 +547,28 @@ static void layer_a(bool big)
         all(4, 0, N + 1);
         all(6, 1, N);
         all(7, 1, N + 256);
+        all(8, 1, N);
         if (big || N < 50) { all(3, 1, N); all(5, 1, N); }
         else for (int d : {1, 2, N / 2, N / 2 + 1, N - 1}) { items.push_back({order, 3, d}); items.push_back({order, 5, d}); } // quick: boundary keys only for the big verdict maps
     }
+    // cheap sections first, the big verdict maps (3, 5) and the full signing grid (2) last: a deadline cuts only their tail
+    std::stable_sort(items.begin(), items.end(), [](const Item& a, const Item& b) {
+        auto w = [](const Item& it) { return it.section == 3 ? 3 : it.section == 5 ? 2 : it.section == 2 ? 1 : 0; };
+        return w(a) < w(b);
+    });
+    std::atomic<uint64_t> skipped{0};
     vx::par_for(items.size(), 1, [&](uint64_t lo, uint64_t hi, unsigned) {
         for (uint64_t i = lo; i < hi; i++) {
+            if (vx::deadline_reached()) { skipped++; continue; }   // complete work units only; reported as INCOMPLETE
             auto [order, section, d] = items[i];
             int ok = order == 13 ? exh13_exh_section(section, d, d + 1, big, exh_emit) : exh199_exh_section(section, d, d + 1, big, exh_emit);
             if (!ok) S.viol("exhaustive-section", "section " + u(section) + " failed to run");
         }
     });
     S.stat("exhaustive_work_items", items.size());
+    S.stat("exhaustive_work_items_skipped_deadline", skipped.load());
     S.flush();
+    if (skipped.load()) { printf("M\tINCOMPLETE exhaustive work items skipped at the deadline: %" PRIu64 "\n", skipped.load()); fflush(stdout); }
 }
 
 int main(int argc, char** argv)
